@@ -57,7 +57,7 @@ for pid in sorted(checks):
       "replay_cmd_template": "./check replay {path}",
       "engine": engine,
       "level_claimed": {"category": level, "text": text, "design_ref": "DESIGN.md section " + ref},
-      "level_note": "Trusted: SimNode as a model of Core Lightning (contract A1-A5, DESIGN.md 2.4), the oracles, rustc/cargo, tokio 1.38.0 (+ select-hook patch). Bounds are real bounds (HTLCs per hash, parts per pay, crashes, faults, deviation level as reported in the evidence); interleavings inside await-free sections on a multi-thread runtime are not explored.",
+      "level_note": "Trusted: SimNode as a model of Core Lightning (contract A1-A5, DESIGN.md 2.4), the oracles, rustc/cargo, tokio 1.38.0 (+ vendor/tokio.patch: select start branch, run-queue order and preemption points before Mutex::lock / mpsc send / recv are owned by the explorer). Bounds are real bounds (HTLCs per hash, parts per pay, crashes, faults, deviation level as reported in the evidence; at most one scheduling deviation per step and one suspended task per history); parallel execution inside sections without a tokio synchronisation operation is not explored.",
       "technique": technique,
     })
 json.dump(m, open('/verif/MANIFEST.json', 'w'), indent=1)
